@@ -29,6 +29,11 @@ type arrCallResult struct {
 // arrCallBuiltin runs lang.GoFunctions[name] as a method with the given stdin
 // (data type dt) and parameters. isNot selects the `!name` form.
 func arrCallBuiltin(name string, isNot bool, dt string, stdin []byte, params []string, timeout time.Duration) arrCallResult {
+	return arrCallBuiltinCfg(name, isNot, dt, stdin, params, timeout, nil)
+}
+
+// arrCallBuiltinCfg: as arrCallBuiltin; setup may adjust the process (its config) before the call.
+func arrCallBuiltinCfg(name string, isNot bool, dt string, stdin []byte, params []string, timeout time.Duration, setup func(*lang.Process)) arrCallResult {
 	initMurex()
 	fn := lang.GoFunctions[name]
 	if fn == nil {
@@ -54,6 +59,9 @@ func arrCallBuiltin(name string, isNot bool, dt string, stdin []byte, params []s
 	out := streams.NewStdin()
 	p.Stdout = out
 	p.Stderr = streams.NewStdin()
+	if setup != nil {
+		setup(p)
+	}
 
 	var r arrCallResult
 	done := make(chan struct{})
